@@ -477,6 +477,12 @@ def r9_mark_monotone(c, facts, rule='C09.R9'):
 
 
 def run(c, facts):
+    import c14 as _c14
+    import inferrules as _I
+    R11 = c.rule('C09.R11', 'COMPONENT-FROM-PROGRAM: the components a recursion point refers to are the program\'s: components.schemas of the document is what all_components() produced, not an entry of a base description with the same name (shared with C14.R3)')
+    c.shared(R11, _c14.r3_from_program, 'C14.R3', facts)
+    R12 = c.rule('C09.R12', 'VAR-NAMESPACE: the tag the cycle check cuts at is inferred without collisions between the type variables of different modules (shared with C07.R6)')
+    c.run(lambda c: _I.var_namespace(c, facts, R12))
     c.run(r9_mark_monotone, facts)
     c.run(r8_once, facts)
     import c03
